@@ -51,7 +51,6 @@ func ctrHasher(name string, hi bool, size int) hash.Hasher {
 	}}
 }
 
-
 type namedHasher struct {
 	name string
 	mk   func() hash.Hasher
